@@ -138,7 +138,7 @@ func runCheck(eng *Engine, prop, tier string, verbose, noReplay bool) int {
 	findings := loadFindings(eng.verif)
 	eng.excuses = map[string]string{}
 	for _, f := range findings {
-		if f.Property == prop && f.Status == "open" && f.Excuse != "" {
+		if f.Status == "open" && f.Excuse != "" {
 			eng.excuses[f.Obligation] = f.Excuse
 		}
 	}
@@ -450,7 +450,9 @@ func findGroup(gs []*Group, name string) *Group {
 func matchFinding(fs []Finding, prop, name string) *Finding {
 	name = strings.TrimSuffix(name, "|unexcused")
 	for i := range fs {
-		if fs[i].Property == prop && fs[i].Status == "open" && fs[i].Obligation == name {
+		// obligation names are global: a finding recorded under one property also covers the same obligation when another
+		// property's check verifies the function (dependency closure, functions serving several properties)
+		if fs[i].Status == "open" && fs[i].Obligation == name {
 			return &fs[i]
 		}
 	}
